@@ -546,7 +546,7 @@ func gen(t *rapid.T) Case {
 					op["consumes"] = []any{rapid.SampledFrom([]string{"application/x-www-form-urlencoded", "multipart/form-data"}).Draw(t, "formct")}
 					nf := rapid.IntRange(1, 3).Draw(t, "nform")
 					for i := 0; i < nf; i++ {
-						p := g.paramSchemaFields(false)
+						p := g.paramSchemaFields(true)
 						p["name"], p["in"] = fmt.Sprintf("f%d", i), "formData"
 						if g.chance(2, "freq") {
 							p["required"] = true
